@@ -1,5 +1,7 @@
-"""The pinned corpus lib/axllib/test (programs the repository's own suite builds and runs), for differential checks."""
-import os, re, shutil
+"""The pinned corpus lib/axllib/test (programs the repository's own suite builds and runs), for differential checks.
+A corpus run has two stages: build (compiler, and gcc on the C route) and run.  Only the run stage is program behaviour;
+a program whose build fails is outside the differential checks (many corpus files are tests of compiler diagnostics)."""
+import os, re, shutil, tempfile
 from vlib import build as _b
 from vlib.runners import TC, mkdir
 
@@ -13,16 +15,70 @@ def names():
         return []
 
 
-def run_one(tc, name, route, q, workdir, timeout=60):
-    d = mkdir('%s/corp-%s-%s%s' % (workdir, name, route, ''.join(q)))
+class Out:
+    __slots__ = ('stage', 'rc', 'timeout', 'sig', 'out')
+
+    def __init__(self, stage, r):
+        self.stage, self.rc, self.timeout, self.sig, self.out = stage, r.rc, r.timeout, r.sig, r.out
+
+    def norm(self):
+        # the interpreter's back-trace (frames depend on inlining, addresses on the build) is not program output
+        t = re.sub(rb'^#\d+ [^\n]* in <[^\n]*> at unit \[[^\n]*\]\n', b'', self.out, flags=re.M)
+        return re.sub(rb'^\.\.\.\n', b'', t, flags=re.M)
+
+    def faulted(self):
+        """ended by a fault of the run-time system (signal, or the interpreter's report of one), not by the program's own doing"""
+        return self.stage == 'run' and (bool(self.sig) or b'Program fault' in self.out or b'Compiler bug' in self.out or b'Storage allocation error' in self.out)
+
+    def key(self):
+        """what is compared: stage reached, success/failure, and the bytes the program wrote"""
+        return (self.stage, self.rc == 0, self.timeout, self.norm() if self.stage == 'run' else b'')
+
+
+def run_one(tc, name, route, q, workdir, timeout=90, env=None, norand=True):
+    """route 'c': generated C + gcc + executable; route 'interp': compile to .ao, then interpret the saved .ao (so that the
+    compiler's own messages are not mixed into the program's output)"""
+    d = tempfile.mkdtemp(prefix='corp-%s-%s%s-' % (name, route, ''.join(q)), dir=workdir)      # unique: the same job may run twice at once
     shutil.copy('%s/%s/%s.as' % (T, name, name), d)
     try:
         if route == 'interp':
-            r = tc.interp(d + '/%s.as' % name, q, d, timeout=timeout)
-        else:
-            exe, r = tc.cexe(d + '/%s.as' % name, q, d, timeout=timeout)
-            if exe:
-                r = tc.runexe(exe, timeout=timeout)
-        return r
+            r = tc.aldor(list(q) + ['-Fao', name + '.as'], d, timeout=timeout)
+            if r.rc != 0 or r.timeout or not os.path.exists('%s/%s.ao' % (d, name)):
+                return Out('build', r)
+            return Out('run', tc.aldor(['-Ginterp', name + '.ao'], d, timeout=timeout, env=env, norand=norand))
+        exe, r = tc.cexe(d + '/%s.as' % name, q, d, timeout=timeout)
+        if not exe:
+            return Out('build', r)
+        return Out('run', tc.runexe(exe, timeout=timeout, env=env, norand=norand))
     finally:
         shutil.rmtree(d, ignore_errors=True)
+
+
+def matrix(ck, tc, routes, levels, workdir, repeat_first=True, only=None):
+    """every corpus program x route x level; the first level is run a second time with address-space randomisation on and the heap
+    moved by three pages (ALDOR_VERIF_HEAPPAD), so that a program whose output contains addresses or uninitialised values shows up as not
+    reproducible and is left out;  -> {(name, route, level): [Out, ...]}"""
+    from vlib.common import pmap
+    ns = [n for n in names() if only is None or n in only]
+    jobs = [(n, r, q, False) for n in ns for r in routes for q in levels] + ([(n, r, levels[0], True) for n in ns for r in routes] if repeat_first else [])
+
+    def crun(j):
+        n, r, q, pad = j
+        if ck.expired():
+            return j, None
+        return j, run_one(tc, n, r, (q,), workdir, env={'ALDOR_VERIF_HEAPPAD': '3'} if pad else None, norand=not pad)
+    got = {}
+    for j, v in sorted(pmap(crun, jobs), key=lambda x: x[0]):
+        if v is None:
+            ck.cut('corpus run not done')
+            continue
+        got.setdefault(j[:3], []).append(v)
+    return ns, got
+
+
+def uses_foreign(name):
+    """programs that import foreign (C / Lisp / Fortran) functions: the interpreter cannot call them, the routes are not comparable"""
+    try:
+        return bool(re.search(r'\bForeign\b', open('%s/%s/%s.as' % (T, name, name), errors='replace').read()))
+    except OSError:
+        return False
